@@ -34,6 +34,17 @@ struct cmb_condition *cmb_condition_create(void)
     return r;
 }
 
+/*
+ * condition_forward - A signal forwarded from an observed resource guard means
+ * that something has changed, evaluate all waiting processes, not just the first.
+ */
+static bool condition_forward(struct cmb_resourceguard *rgp)
+{
+    cmb_assert_debug(rgp != NULL);
+
+    return cmb_condition_signal((struct cmb_condition *)(rgp->guarded_resource));
+}
+
 void cmb_condition_initialize(struct cmb_condition *cvp,
                               const char *name)
 {
@@ -42,6 +53,7 @@ void cmb_condition_initialize(struct cmb_condition *cvp,
 
     cmi_resourcebase_initialize((struct cmi_resourcebase *)cvp, name);
     cmb_resourceguard_initialize(&(cvp->guard), (struct cmi_resourcebase *)cvp);
+    cvp->guard.forward = condition_forward;
 }
 
 void cmb_condition_terminate(struct cmb_condition *cvp)
